@@ -64,6 +64,9 @@ type FuncExec struct {
 	allocs    []allocRec
 	usesSpec  bool
 	loopAutos map[*ssa.BasicBlock][]autoInv
+	stableRefs map[string][]*Term
+	discLog    []discWrite
+	discLogOn  int
 }
 
 // autoInv is an inferred, checked loop invariant about one integer cell.
@@ -694,6 +697,14 @@ func (fx *FuncExec) enterLoop(fn *ssa.Function, l *Loop, reach *Term, st *State,
 			fx.heapSet(h, allocKey, nw)
 			continue
 		}
+		if refs, ok := fx.stableRefs[k]; ok {
+			arr := fx.heapGet(h, k, fx.eng.heapSorts[k])
+			for _, r := range refs {
+				arr = ts.Store(arr, r, ts.Fresh("lp."+k, elemSort(fx.eng.heapSorts[k])))
+			}
+			fx.heapSet(h, k, arr)
+			continue
+		}
 		fx.heapSet(h, k, ts.Fresh("lp."+k, fx.eng.heapSorts[k]))
 	}
 	// SSA temporaries defined inside the loop are recomputed each iteration; drop stale ones
@@ -726,6 +737,7 @@ func (fx *FuncExec) entryFor(fn *ssa.Function) *State {
 func (fx *FuncExec) discoverWrites(fn *ssa.Function, l *Loop, st *State, con *Contract) (map[*ssa.Alloc]bool, map[string]bool) {
 	wc := map[*ssa.Alloc]bool{}
 	wh := map[string]bool{}
+	fx.stableRefs = map[string][]*Term{}
 	// static part: cells stored directly in loop blocks
 	for b := range l.body {
 		for _, in := range b.Instrs {
@@ -752,9 +764,14 @@ func (fx *FuncExec) discoverWrites(fn *ssa.Function, l *Loop, st *State, con *Co
 		}
 		fx.discover++
 		nfacts, nobls := len(fx.facts), len(fx.obls)
+		firstNew := fx.ts.next
+		fx.discLog = fx.discLog[:0]
+		fx.discLogOn++
 		got := fx.runLoopBodyOnce(fn, l, start, con)
+		fx.discLogOn--
 		fx.facts, fx.obls = fx.facts[:nfacts], fx.obls[:nobls]
 		fx.discover--
+		log := append([]discWrite{}, fx.discLog...)
 		grew := false
 		for a := range got.wcells {
 			if !wc[a] {
@@ -769,10 +786,83 @@ func (fx *FuncExec) discoverWrites(fn *ssa.Function, l *Loop, st *State, con *Co
 			}
 		}
 		if !grew {
+			// final round: everything the loop writes was havocked at its start. A heap array whose
+			// writes all go to objects named by loop-invariant terms only needs those objects forgotten.
+			fx.stableRefs = fx.analyseWrites(log, start, firstNew)
 			break
 		}
 	}
 	return wc, wh
+}
+
+type discWrite struct {
+	key string
+	t   *Term
+}
+
+func (fx *FuncExec) analyseWrites(log []discWrite, start *State, firstNew int) map[string][]*Term {
+	out := map[string][]*Term{}
+	bad := map[string]bool{}
+	var fresh func(t *Term, seen map[int]bool) bool
+	fresh = func(t *Term, seen map[int]bool) bool {
+		if seen[t.id] {
+			return false
+		}
+		seen[t.id] = true
+		if t.op == "var" && (t.id > firstNew || strings.HasPrefix(t.name, "dw")) {
+			return true
+		}
+		for _, a := range t.args {
+			if fresh(a, seen) {
+				return true
+			}
+		}
+		return false
+	}
+	for _, w := range log {
+		if w.key == allocKey || bad[w.key] {
+			continue
+		}
+		base, ok := start.heap[w.key]
+		if !ok {
+			base = fx.ts.Var("H0!"+w.key, fx.eng.heapSorts[w.key])
+		}
+		seenT := map[int]bool{}
+		var walk func(t *Term) bool
+		walk = func(t *Term) bool {
+			if t == base {
+				return true
+			}
+			if seenT[t.id] {
+				return true
+			}
+			seenT[t.id] = true
+			switch t.op {
+			case "store":
+				if fresh(t.args[1], map[int]bool{}) {
+					return false
+				}
+				dup := false
+				for _, r := range out[w.key] {
+					if r == t.args[1] {
+						dup = true
+					}
+				}
+				if !dup {
+					out[w.key] = append(out[w.key], t.args[1])
+				}
+				return walk(t.args[0])
+			case "ite":
+				return walk(t.args[1]) && walk(t.args[2])
+			}
+			return false
+		}
+		if !walk(w.t) || len(out[w.key]) > 8 {
+			bad[w.key] = true
+			delete(out, w.key)
+		}
+	}
+	return out
 }
 
 // runLoopBodyOnce executes the blocks of l once starting at the head and
